@@ -315,14 +315,22 @@ func (t *Dense) TensorMul(other Tensor, axesA, axesB []int) (retVal *Dense, err 
 
 	// we borrowClone because we don't want to touch the original Tensors
 	// (column-major operands are contracted through row-major copies: transpose+reshape below rely on row-major storage)
-	var doT, doOther *Dense
-	if t.o.IsColMajor() {
-		doT = asRowMajor(t).(*Dense)
-	} else {
-		doT = t.Clone().(*Dense)
+	// (views and other non-contiguous operands likewise: their clone keeps the strides, and a reshape of it reads storage order)
+	privateCopy := func(d *Dense) *Dense {
+		if d.o.IsColMajor() {
+			return asRowMajor(d).(*Dense)
+		}
+		if d.IsMaterializable() {
+			if m, ok := d.Materialize().(*Dense); ok && m != d {
+				return m
+			}
+		}
+		return d.Clone().(*Dense)
 	}
-	if od, ok := other.(*Dense); ok && od.o.IsColMajor() {
-		doOther = asRowMajor(od).(*Dense)
+	var doT, doOther *Dense
+	doT = privateCopy(t)
+	if od, ok := other.(*Dense); ok {
+		doOther = privateCopy(od)
 	} else {
 		doOther = other.Clone().(*Dense)
 	}
